@@ -257,6 +257,7 @@ def handle (toks : List String) : String :=
   | "rtx" :: _ => "ok"
   | "probe" :: _ => "ok"
   | "proj" :: _ => "ok"
+  | "schema" :: _ => "ok"
   | _ => "bad-op"
 
 end ArrowModel.C04
